@@ -1,8 +1,9 @@
 /-
 Theorems about the generic scan of FuraxModel/Scan.lean (the loop of `AlgebraicReductionRule.apply`):
 
-* `scan_sound`       — typed soundness: for ANY list of sound rules, ANY chain, ANY starting index and ANY
-                       fuel, the result is well typed between the same structures and denotes the same map;
+* `scan_sound`       — typed soundness: for ANY list of sound rules, ANY chain of well-formed (`Sem.ok`)
+                       operands, ANY starting index and ANY fuel, the result is a chain of well-formed operands,
+                       well typed between the same structures, and denotes the same map;
 * `scan_irreducible` — normal form: when the loop stops by itself, no adjacent pair of the result fires
                        any rule (the loop invariant "every pair left of `index` is irreducible" survives
                        step-back-by-one, restart-at-0 and advance).
@@ -12,13 +13,19 @@ Core Lean only (no Mathlib).
 import FuraxModel.Scan
 namespace Furax
 
-/-- Semantics of operators as maps on a universal value space `V`, typed by structures `S`. -/
+/-- Semantics of operators as maps on a universal value space `V`, typed by structures `S`.
+
+`ok o` is the well-formedness of the operator term `o` (for the furax operator tree: `StructOK`,
+FuraxProofs/Lemmas/WellFormed.lean — what the Python constructors guarantee).  The law `honest` is demanded of
+well-formed terms only: a faithful denotation (vectors of the declared sizes) cannot satisfy it for terms no
+constructor can build (a composition whose adjacent structures do not match, …). -/
 structure Sem (O V S : Type) where
   den : O → V → V
   inS : O → S
   outS : O → S
   mem : S → V → Prop
-  honest : ∀ o x, mem (inS o) x → mem (outS o) (den o x)
+  ok : O → Prop
+  honest : ∀ o x, ok o → mem (inS o) x → mem (outS o) (den o x)
 
 namespace Sem
 variable {O V S : Type} (sem : Sem O V S)
@@ -48,25 +55,29 @@ theorem WT_append (a b : List O) (s t : S) :
     · rintro ⟨h1, m, h2, h3⟩; exact ⟨m, h2, h1, h3⟩
     · rintro ⟨m, h2, h1, h3⟩; exact ⟨h1, m, h2, h3⟩
 
-theorem WT_mem (ops : List O) (s t : S) (h : sem.WT ops s t) (x : V) (hx : sem.mem s x) :
-    sem.mem t (sem.app ops x) := by
+/-- a well-typed chain of well-formed operands maps its input space into its output space -/
+theorem WT_mem (ops : List O) (s t : S) (hok : ∀ o ∈ ops, sem.ok o) (h : sem.WT ops s t) (x : V)
+    (hx : sem.mem s x) : sem.mem t (sem.app ops x) := by
   induction ops generalizing t with
   | nil => simp [WT] at h; subst h; exact hx
   | cons o os ih =>
     obtain ⟨h1, h2⟩ := h
     subst h1
-    exact sem.honest o _ (ih _ h2)
+    exact sem.honest o _ (hok o List.mem_cons_self) (ih _ (fun o' ho' => hok o' (List.mem_cons_of_mem _ ho')) h2)
 
-/-- A rule is sound when, on every well-typed adjacent pair it fires on, its output is well typed
-between the same structures and denotes the same map. -/
+/-- A rule is sound when, on every well-typed adjacent pair of well-formed (`ok`) operands it fires on, its
+output consists of well-formed operands, is well typed between the same structures and denotes the same map.
+(This is `RuleSoundOn sem.ok`, FuraxProofs/Lemmas/ScanOn.lean.) -/
 def RuleSound {E} (ru : Rule O E) : Prop :=
-  ∀ l r new, ru.fire l r = .ok (some new) → sem.inS l = sem.outS r →
-    sem.WT new (sem.inS r) (sem.outS l) ∧
+  ∀ l r new, sem.ok l → sem.ok r → ru.fire l r = .ok (some new) → sem.inS l = sem.outS r →
+    (∀ o ∈ new, sem.ok o) ∧ sem.WT new (sem.inS r) (sem.outS l) ∧
     ∀ x, sem.mem (sem.inS r) x → sem.app new x = sem.den l (sem.den r x)
 
-/-- a chain transformer (the scalar relocation) that preserves typing and denotation -/
+/-- a chain transformer (the scalar relocation) that preserves well-formedness of the operands, typing and
+denotation (this is `ListSoundOn sem.ok`) -/
 def ListSound (f : List O → List O) : Prop :=
-  ∀ ops s t, sem.WT ops s t → sem.WT (f ops) s t ∧ ∀ x, sem.mem s x → sem.app (f ops) x = sem.app ops x
+  ∀ ops s t, (∀ o ∈ ops, sem.ok o) → sem.WT ops s t →
+    (∀ o ∈ f ops, sem.ok o) ∧ sem.WT (f ops) s t ∧ ∀ x, sem.mem s x → sem.app (f ops) x = sem.app ops x
 
 end Sem
 
@@ -94,9 +105,29 @@ theorem list_split_at {O} (ops : List O) (index : Nat) (h : index + 1 < ops.leng
   calc ops = ops.take index ++ ops.drop index := (List.take_append_drop index ops).symm
     _ = _ := by rw [h1, h2]; simp
 
+theorem mem_splice {O} (ops : List O) (i : Nat) (new : List O) (o : O) (h : o ∈ splice ops i new) :
+    o ∈ ops ∨ o ∈ new := by
+  simp only [splice, List.mem_append] at h
+  rcases h with (h | h) | h
+  · exact .inl (List.mem_of_mem_take h)
+  · exact .inr h
+  · exact .inl (List.mem_of_mem_drop h)
+
+/-- the pair at `index`, `index + 1` of a well-typed chain is well typed -/
+theorem WT_adjacent {O V S} (sem : Sem O V S) (ops : List O) (index : Nat) (s t : S)
+    (h : index + 1 < ops.length) (hwt : sem.WT ops s t) :
+    sem.inS ops[index] = sem.outS ops[index+1] := by
+  have hsplit := list_split_at ops index h
+  rw [hsplit, sem.WT_append] at hwt
+  obtain ⟨m, _, hmid⟩ := hwt
+  rw [sem.WT_append] at hmid
+  obtain ⟨m', hpair, _⟩ := hmid
+  simp only [Sem.WT] at hpair
+  exact hpair.2.1.symm
+
 /-- replacing an adjacent pair by a sound rule's output preserves typing and denotation -/
 theorem splice_sound {O V S} (sem : Sem O V S) (ops : List O) (index : Nat) (new : List O) (s t : S)
-    (h : index + 1 < ops.length) (hwt : sem.WT ops s t)
+    (h : index + 1 < ops.length) (hok : ∀ o ∈ ops, sem.ok o) (hwt : sem.WT ops s t)
     (hnew : sem.inS ops[index] = sem.outS ops[index+1] →
       sem.WT new (sem.inS ops[index+1]) (sem.outS ops[index]) ∧
       ∀ x, sem.mem (sem.inS ops[index+1]) x →
@@ -121,21 +152,23 @@ theorem splice_sound {O V S} (sem : Sem O V S) (ops : List O) (index : Nat) (new
     rw [sem.WT_append]
     exact ⟨_, hnwt, hpre⟩
   · intro x hx
-    have hmem := sem.WT_mem _ _ _ hpost x hx
+    have hmem := sem.WT_mem _ _ _ (fun o ho => hok o (List.mem_of_mem_drop ho)) hpost x hx
     conv => rhs; rw [hsplit]
     simp only [splice, Sem.app_append, Sem.app]
     rw [hnapp _ hmem]
 
-/-- **Typed soundness of the scan**, for every rule list, chain, index and amount of fuel. -/
+/-- **Typed soundness of the scan**, for every rule list, chain of well-formed operands, index and amount of
+fuel. -/
 theorem scan_sound {O V S E} (sem : Sem O V S) (c : Cfg O E)
     (hr : ∀ ru ∈ c.rules, sem.RuleSound ru) (hh : sem.ListSound c.homRule) :
-    ∀ fuel ops index res s t, sem.WT ops s t → scan c fuel ops index = .ok (some res) →
-      sem.WT res s t ∧ ∀ x, sem.mem s x → sem.app res x = sem.app ops x := by
+    ∀ fuel ops index res s t, (∀ o ∈ ops, sem.ok o) → sem.WT ops s t →
+      scan c fuel ops index = .ok (some res) →
+      (∀ o ∈ res, sem.ok o) ∧ sem.WT res s t ∧ ∀ x, sem.mem s x → sem.app res x = sem.app ops x := by
   intro fuel
   induction fuel with
-  | zero => intro ops index res s t _ h; simp [scan] at h
+  | zero => intro ops index res s t _ _ h; simp [scan] at h
   | succ n ih =>
-    intro ops index res s t hwt hres
+    intro ops index res s t hok hwt hres
     unfold scan at hres
     split at hres
     · rename_i h
@@ -143,19 +176,26 @@ theorem scan_sound {O V S E} (sem : Sem O V S) (c : Cfg O E)
       · simp at hres
       · rename_i newOps hf
         obtain ⟨ru, hmem, hfire⟩ := fireFirst_some _ _ _ _ hf
-        have hs := splice_sound sem ops index newOps s t h hwt
-          (fun hlr => hr ru hmem _ _ _ hfire hlr)
+        have hokl : sem.ok ops[index] := hok _ (List.getElem_mem _)
+        have hokr : sem.ok ops[index+1] := hok _ (List.getElem_mem _)
+        have hrule := hr ru hmem _ _ _ hokl hokr hfire (WT_adjacent sem ops index s t h hwt)
+        have hs := splice_sound sem ops index newOps s t h hok hwt (fun _ => hrule.2)
+        have hoks : ∀ o ∈ splice ops index newOps, sem.ok o := by
+          intro o ho
+          rcases mem_splice _ _ _ _ ho with h1 | h1
+          · exact hok o h1
+          · exact hrule.1 o h1
         simp only [] at hres
         split at hres
-        · obtain ⟨hw2, ha2⟩ := hh _ _ _ hs.1
-          obtain ⟨hw3, ha3⟩ := ih _ _ _ _ _ hw2 hres
-          exact ⟨hw3, fun x hx => by rw [ha3 x hx, ha2 x hx, hs.2 x hx]⟩
-        · obtain ⟨hw3, ha3⟩ := ih _ _ _ _ _ hs.1 hres
-          exact ⟨hw3, fun x hx => by rw [ha3 x hx, hs.2 x hx]⟩
-      · exact ih _ _ _ _ _ hwt hres
+        · obtain ⟨hk2, hw2, ha2⟩ := hh _ _ _ hoks hs.1
+          obtain ⟨hk3, hw3, ha3⟩ := ih _ _ _ _ _ hk2 hw2 hres
+          exact ⟨hk3, hw3, fun x hx => by rw [ha3 x hx, ha2 x hx, hs.2 x hx]⟩
+        · obtain ⟨hk3, hw3, ha3⟩ := ih _ _ _ _ _ hoks hs.1 hres
+          exact ⟨hk3, hw3, fun x hx => by rw [ha3 x hx, hs.2 x hx]⟩
+      · exact ih _ _ _ _ _ hok hwt hres
     · simp only [Except.ok.injEq, Option.some.injEq] at hres
       subst hres
-      exact ⟨hwt, fun _ _ => rfl⟩
+      exact ⟨hok, hwt, fun _ _ => rfl⟩
 
 /-! ### normal form -/
 
